@@ -421,6 +421,9 @@ func c20Body(t *testing.T, combos [][]int, withStop bool, bound int, metrics ...
 					keep := inst.Dir
 					inst.Dir = ""
 					inst.Stop2()
+					if len(inst.LeftSubscribed) > 0 {
+						rec.fail("subscription-left-after-stop", fmt.Sprintf("Store.Run has returned but the store is still subscribed to %v (a stopped instance keeps answering these requests on a closed database)", inst.LeftSubscribed))
+					}
 					in2, err := sh.New(sh.Opts{File: file, NoTemplate: true, URL: url + "-reopen", Mode: nats.Inline})
 					if err != nil {
 						rec.fail("does-not-reopen", "after Stop the store file does not open again: "+err.Error())
@@ -483,7 +486,7 @@ func TestC20(t *testing.T) {
 			sb = 2
 		}
 		r.Explore(mc.Config{Name: fmt.Sprintf("shutdown-p%d", sb), Serial: true, SplitDepth: 4, DevBound: sb,
-			Rule: fmt.Sprintf("the pairs {W1,W2}, {W1,R} with a concurrent Store.Stop at every point (at most %d preemptions): Stop returns, the file opens again with the same root, every acknowledged write is present, hashes consistent", sb)},
+			Rule: fmt.Sprintf("the pairs {W1,W2}, {W1,R} with a concurrent Store.Stop at every point (at most %d preemptions): Stop returns, no subscription of the store is left on the bus, the file opens again with the same root, every acknowledged write is present, hashes consistent", sb)},
 			c20Body(t, [][]int{{0, 1}, {0, 2}}, true, sb))
 		if i, _ := mc.Shard(); i == 0 {
 			c20RacePart(r)
@@ -500,7 +503,7 @@ func TestC20(t *testing.T) {
 // c20StopAroundStartup: Store.Stop issued at every position around the start of Store.Run (an instance
 // whose neighbour actor fails at once is stopped while it is still starting).
 func c20StopAroundStartup(r *mc.Report, t *testing.T) {
-	p := r.Part("stop-around-startup", "Store.Stop at each of 4 positions around the start of Store.Run (before the Run goroutine exists; right after `go Run()`; once Run is parked in its loop; after WaitStart and one acknowledged write) x 2 files (fresh, already initialised): Run returns (30 s of virtual time), the file opens again with the same root and holds the acknowledged write")
+	p := r.Part("stop-around-startup", "Store.Stop at each of 4 positions around the start of Store.Run (before the Run goroutine exists; right after `go Run()`; once Run is parked in its loop; after WaitStart and one acknowledged write) x 2 files (fresh, already initialised): Run returns (30 s of virtual time), no subscription of the store is left on the bus, the file opens again with the same root and holds the acknowledged write")
 	for _, initialised := range []bool{false, true} {
 		for pos := 0; pos < 4; pos++ {
 			p.Case(true)
@@ -585,6 +588,13 @@ func c20StartupCase(t *testing.T, initialised bool, pos int) (key, problem strin
 				case <-time.After(30 * time.Second):
 					problem, key = fmt.Sprintf("Store.Run has not returned 30 s after Stop (Stop issued at position %d around the start of Run)", pos), "store-run-does-not-return"
 					return
+				}
+				prefix := fmt.Sprintf("c%d:", stNc.ID())
+				for _, sub := range bus.Subscriptions() {
+					if strings.HasPrefix(sub, prefix) {
+						problem, key = fmt.Sprintf("Store.Run has returned but the store is still subscribed to %s", strings.TrimPrefix(sub, prefix)), "subscription-left-after-stop"
+						return
+					}
 				}
 				nc.Close()
 				stNc.Close()
